@@ -12,13 +12,18 @@ Spec: Parser.tla.  TLC
       runes / separators / wildcard of every UTF-8 width 1..4, both cases and an invalid byte, exactly the maximal
       runs of word runes of the declarative reference (ValueSplitsIntoWords), and each such phrase keeps its meaning
       under not / or / and-not / in(...) (PhraseContextsKeepMeaning);
+      the palette holds the letters at both ends of the ASCII / Latin-1 / Cyrillic case ranges with their non-letter
+      neighbours, and both languages must return the same case-folded terms; a filter on field f is read with the type
+      of the untitled entry of f's declared type list wherever it stands, f.title with that entry's (QueryType);
   (b) emits every rune string of the phrase walk as the value of a text and of a keyword field in each context and
       spelling (quoted with ", ' or `, or bare where the lexer allows it), with the truth table over its words;
       emits every (tree, parenthesisation, spelling) with the truth table of the tree, every well-formed
       lexeme sequence of the grammar walk with its table, and every hostile lexeme sequence of the totality
       walk with the allowed outcomes {ok, err}.
 The Go driver `parserdrv` feeds the spelled strings to parser.ParseSeqQL / ParseQuery /
-ParseAggregationFilter (typed, nil and per-type mappings): the returned AST (incl. NAND) must have the
+ParseAggregationFilter under the declared mapping of the case (written as a mapping file and converted by the real
+seq.ReadMapping: single-type fields, multi-type fields with the main type first / last / in the middle), the nil
+mapping and per-type mappings: the returned AST (incl. NAND) must have the
 table of the specification and no leaf that is not a word of the expression; a panic or a call that does not return is a totality violation.  A short walk
 is also sent through GrpcV1.Search of a real store."""
 import concurrent.futures
@@ -202,10 +207,14 @@ def run(ctx):
         "ellipsis, U+FFFD, emoji = 1..4 bytes, byte 0xFF; wildcard) and every string of <= 3 (thorough 5) runes over one rune per (class, width), plus seeded random "
         "strings of <= 10 runes with full fan-out, each as the value of text field t alone / under not / in or / in and-not / first and middle element of in(...) / "
         "between two other phrases, and as the value of keyword field a, spelled in styles s1..s4 (quoted \", ', `, or bare when every rune may stand outside quotes); "
-        "required: the truth table over the words decided by RefLits/RefKw and no leaf outside them. "
+        "the palette (43 runes) also has A Z a z 0 9 and their neighbours / @ [ ` {, the first and last capital of Latin-1 and Cyrillic, the multiplication sign "
+        "and the Kelvin sign; two more contexts put the value on the additional fields t.keyword / a.text of a multi-type declaration (alone and in a negated in(...)). "
+        "Every sem case is parsed under one of 4 declared mappings (single types; each field with a second type of the other tokenizer class declared after / before "
+        "its main type; three types with the main one in the middle), rotating with spelling, context and string, converted by seq.ReadMapping. "
+        "required: the truth table over the words decided by RefLits/RefKw under QueryType, no leaf outside them, and the same terms from ParseQuery and ParseSeqQL. "
         "tot (walkA/walkB/walkU/randwalk*): alphabet U = multi-byte separators (2, 3, 4 bytes), a 2-byte letter, 0xFF and U+E000 next to quotes, backslash, *, in( , );  every lexeme sequence of length <= 4 (thorough: 6 over A, 5 over B) over an 18-lexeme hostile alphabet A (quotes of 3 kinds, "
         "backslash, #, newline, 0xFF, U+E000, *, parentheses, keywords) and B (ranges, in, pipes, commas), plus seeded random walks of "
-        "length <= 16 with full fan-out at every step, x 11 mappings of field f x {ParseSeqQL, ParseQuery} + ParseAggregationFilter; "
+        "length <= 16 with full fan-out at every step, x 12 mappings of field f (incl. text+keyword declared main-first and main-last) x {ParseSeqQL, ParseQuery} + ParseAggregationFilter; "
         "non-trivial tot input = accepted by at least one parser/mapping; input_strings = strings built from the cases (distinct within the exhaustive walks; random walks can repeat short prefixes). "
         "store: every sequence of length <= 3 over a 10-lexeme alphabet through GrpcV1.Search (SeqQL and legacy) of real stores, one per mapping type. "
         "deep: nesting-depth classes open^n f:x close^n for 5 shapes (parentheses, unclosed parentheses, not, not(, and-not chain) x n in {1000, 3*10^6} "
@@ -216,8 +225,8 @@ def run(ctx):
         "nesting depth is sampled at a few sizes (B4 shape classes) up to 3*10^6, a query of 3-6 MB, which the store's gRPC server (256 MB limit) accepts",
         "the truth table is evaluated on the returned parser.ASTNode with NAND read as children[1] AND NOT children[0] (as frac/processor/eval_tree.go builds node.NewNAnd); leaves are one-word literals",
         "field values are modelled as rune strings over the palette of Parser.tla (section iv): what is a word rune is taken from unicode.IsLetter/IsNumber/'_' as the "
-        "text tokenizer (tokenizer/text_tokenizer.go) has it, represented by one or two runes per (class, UTF-8 width, case); other escapes than \\*, runes whose "
-        "lower case has another width, and U+E000 typed by the user are not in the palette",
+        "text tokenizer (tokenizer/text_tokenizer.go) has it, represented by one or two runes per (class, UTF-8 width, case) plus the ends of the ASCII, Latin-1 and Cyrillic case ranges; other escapes than \\*, runes whose "
+        "lower case has another width (except the Kelvin sign), and U+E000 typed by the user are not in the palette",
         "two adjacent wildcards are compared for SeqQL only (the legacy builder reads ** in its own way), and the lower-casing of an invalid byte inside a keyword value is not demanded",
         "a leaf of the returned tree that is none of the words of the expression is reported as a violation (the parser never adds conditions of its own)",
         "shape equality with the TLA+ transcription (PFilter/PExpr + PNot) is measured (ast_shape_equal_to_transcription) but a pure shape difference is reported as drift, not as a violation",
